@@ -19,6 +19,9 @@ GEN_CLASSES = [
     ("loop", 2000, 60000, "basic"),
     ("names_shuffled", 500, 10000, "basic"),
     ("names_long", 500, 10000, "basic"),
+    # input blocks named like generated blocks / regions / variables (legal
+    # closed CFGs; what a graph read back between stages looks like)
+    ("names_namespace", 400, 10000, "bytecode"),
 ]
 
 
@@ -174,7 +177,8 @@ class GraphCheck:
     # ------------------------------------------------------------ run
     def build(self, case, ctx):
         if case["kind"] == "graph":
-            return drivers.make_scfg(case["g"], case.get("payload", "basic"))
+            return drivers.make_scfg(case["g"], case.get("payload", "basic"),
+                                     case.get("how") or drivers.how_for(case["g"]))
         if case["kind"] == "code":
             from numba_scfg.core.datastructures.byte_flow import ByteFlow
 
